@@ -320,7 +320,8 @@ def run_engine_a(sc, binary, mode, tier, seed0, count, chunk, nproc, race=False,
                     "-refdir", refdir, "-seeds", "%d:%d" % (start, n), "-samples", "1" if start == seed0 else "0"]
             if free:
                 args.append("-free")
-            env = {"GOMAXPROCS": str(gomaxprocs)}
+            # fresh processes differ in their environment too: the time zone of the process must not show in a report
+            env = {"GOMAXPROCS": str(gomaxprocs), "TZ": ["UTC", "Asia/Tokyo", "America/New_York", "Europe/Madrid"][(start // max(chunk, 1)) % 4]}
             if refbin:
                 env["SIM_REFBIN"] = refbin
             if race:
@@ -357,6 +358,12 @@ def replay_once(sc, binary, rfile, race=False, timeout=300):
     args = ["batch", "-replay", rfile, "-corpus", sc.corpus_path, "-census", sc.census_path,
             "-refdir", os.path.join(sc.dir, "refcache")]
     env = {"GOMAXPROCS": "4"}
+    try:
+        tz = json.load(open(rfile)).get("tz")
+    except Exception:
+        tz = None
+    if tz:
+        env["TZ"] = tz  # the environment of the process is part of the run
     if race:
         prefix = os.path.join(sc.dir, "race", "replay-%d-%d" % (os.getpid(), random.randrange(1 << 30)))
         args += ["-racelog", prefix]
@@ -523,7 +530,7 @@ def report_violations_a(prop, sc, binary, agg, race=False, max_report=2):
             continue
         r = min(runs, key=lambda x: x["seed"])
         rf = {"property": prop, "engine": "A-race" if race else "A", "seed": r["seed"], "tree": sc.tree_hash,
-              "spec": r["spec"], "decisions": r["decisions"], "violation": r["violation"],
+              "spec": r["spec"], "decisions": r["decisions"], "violation": r["violation"], "tz": r.get("tz"),
               "prefix": {"mode": r["spec"]["mode"], "tier": r.get("tier", "quick"), "seeds": r.get("prefix_seeds") or []}}
         rdir = out_dir("replays")
         raw = os.path.join(rdir, "%s-%d-raw.json" % (prop, r["seed"]))
@@ -535,26 +542,38 @@ def report_violations_a(prop, sc, binary, agg, race=False, max_report=2):
             small = rf
         final = os.path.join(rdir, "%s-%d.json" % (prop, r["seed"]))
         json.dump(small, open(final, "w"), indent=1)
-        # confirm in fresh processes
-        sigs = []
-        recur = 0
+        # confirm in fresh processes. An observed mismatch against a fresh-process reference (or a detector report) is
+        # never a false positive, but the tree under test may contain nondeterminism the simulator does not own
+        # (sync.Pool, GC timing, goroutines of its own). Exact: recurs every time with an identical trace. Otherwise
+        # the violation is still reported when it recurs at least once in six re-executions, and the file says so;
+        # if even the unminimised file never recurs the result is demoted to harness trouble (exit 2).
+        def confirm(path, n):
+            sigs, recur = [], 0
+            for _ in range(n):
+                rr = replay_once(sc, binary, path, race)
+                sigs.append(rr.get("tracesig"))
+                if same_violation(rr, small["violation"]):
+                    recur += 1
+            return recur, len(set(sigs)) == 1
+
         n = 5 if race else 2
-        for _ in range(n):
-            rr = replay_once(sc, binary, final, race)
-            sigs.append(rr.get("tracesig"))
-            if same_violation(rr, small["violation"]):
-                recur += 1
-        small["replays"] = {"attempts": n, "recurred": recur, "trace_identical": len(set(sigs)) == 1}
-        json.dump(small, open(final, "w"), indent=1)
-        ok = recur == n if not race else recur >= 1
-        if not race and len(set(sigs)) != 1:
-            ok = False
-        if not ok:
-            if race:
-                # a race report is never a false positive; it was seen in the original run
-                final = raw
+        recur, ident = confirm(final, n)
+        mode = "exact" if (recur == n and (ident or race)) else None
+        if mode is None:
+            n = 6
+            recur, ident = confirm(final, n)
+            if recur >= 1:
+                mode = "recurs %d of %d (nondeterminism in the tree under test that the simulator does not own)" % (recur, n)
             else:
-                raise HarnessError("violation %s of seed %d does not replay deterministically (%s); raw file %s" % (sig, r["seed"], small["replays"], raw))
+                recur, ident = confirm(raw, n)
+                if recur >= 1 or race:
+                    final = raw
+                    small = rf
+                    mode = "only the unminimised run recurs (%d of %d)" % (recur, n)
+        if mode is None:
+            raise HarnessError("violation %s of seed %d does not replay (0 of %d, also unminimised); raw file %s" % (sig, r["seed"], n, raw))
+        small["replays"] = {"attempts": n, "recurred": recur, "trace_identical": ident, "mode": mode}
+        json.dump(small, open(final, "w"), indent=1)
         print("VIOLATION property=%s replay=%s" % (prop, final), flush=True)
         log("  class=%s sig=%s detail=%s" % (small["violation"]["class"], sig, small["violation"]["detail"][:600].replace("\n", " | ")))
         reported += 1
